@@ -328,10 +328,21 @@ fn one_input(rep: &mut Report, prop: &str, focus: Focus, input: &[u8], limits: L
             }
         }
     }
+    if focus == Focus::RoundTrip {
+        // pipelined anchored reads under incremental draining (the statement covers drained output)
+        for (i, j) in three_way(n) {
+            for d1 in [D::None, D::ConsumeAll, D::AdvanceAll] {
+                for d2 in [D::ConsumeAll, D::AdvanceAll] {
+                    let pieces = pieces3(n, i, j, [M::Prefetched; 3], [d1, d2, D::None]);
+                    t.enc(input, &pieces, limits, false, &mut obs);
+                }
+            }
+        }
+    }
     // --- encoder: 2-way segmentations x uniform methods x all drain pairs
     if drains_full {
         // pipelined anchored reads: 3 pieces, each read before the previous one's drain
-        for (i, j) in if focus == Focus::Drain { three_way(n) } else { Vec::new() } {
+        for (i, j) in if matches!(focus, Focus::Drain | Focus::RoundTrip) { three_way(n) } else { Vec::new() } {
             for d1 in [D::None, D::ConsumeAll, D::AdvanceAll] {
                 for d2 in [D::ConsumeAll, D::AdvanceAll] {
                     let pieces = pieces3(n, i, j, [M::Prefetched; 3], [d1, d2, D::None]);
@@ -383,7 +394,7 @@ fn one_input(rep: &mut Report, prop: &str, focus: Focus, input: &[u8], limits: L
                 t.dec(e, &pieces, limits, false, &mut obs, Some(input));
             }
         }
-        if focus == Focus::Drain {
+        if matches!(focus, Focus::Drain | Focus::RoundTrip) {
             for d1 in [D::None, D::ConsumeAll, D::AdvanceAll] {
                 for d2 in [D::ConsumeAll, D::AdvanceAll] {
                     let pieces = pieces3(en, i, j, [M::Prefetched; 3], [d1, d2, D::None]);
